@@ -1253,8 +1253,9 @@ def run_mmst_bounded(ctx, cfgs, nkeys):
             if not all(res.values()):
                 bad.append({"key": f"PRNGKey({k})", **res})
         ctx.bounded_check(f"{name}/C10.graph_symmetric_loop_free_and_split_instance_solvable", nkeys, len(bad), f"native run on PRNGKey(0..{nkeys - 1})", bad[0] if bad else None)
-        ctx.bounded_check(f"{name}/C10.advertised_parameters_max_degree_and_num_edges_honoured", nkeys, len(bad_par), f"native run on PRNGKey(0..{nkeys - 1})",
-                          {**bad_par[0], "n_failing": len(bad_par)} if bad_par else None)
+        for par_name, label in (("node_degree_at_most_max_degree", "advertised_max_degree_honoured"), ("number_of_edges_as_configured", "advertised_num_edges_distinct_edges")):
+            bp = [b for b in bad_par if not b[par_name]]
+            ctx.bounded_check(f"{name}/C10.{label}", nkeys, len(bp), f"native run on PRNGKey(0..{nkeys - 1})", {**bp[0], "n_failing": len(bp)} if bp else None)
         _not_constant(ctx, name, gen, lambda s_: s_.adj_matrix, [G.__call__], keys=4)
 
 
